@@ -169,6 +169,23 @@ def add_edges(res, ed, prop):
     res.coverage["forced_choice_edges"] = cov
     res.samples.extend(ed["samples"][:2])
 
+BYTES_PROPS = ("C01", "C02", "C03", "C04", "C05", "C06", "C10", "C11")
+
+def add_bytes(res, bs, prop):
+    seen = set()
+    for f in bs["findings"]:
+        if f["kind"] == "V" and f["tag"] == prop:
+            sig = "%s:bytes:%s" % (prop, f["why"])
+            k = (sig, f["job"]["id"])
+            if k in seen: continue
+            seen.add(k)
+            res.violation(sig, "%s at opcode %d of generation [%s]" % (f["why"], f["event"], job_brief(f["job"])),
+                          {"stage": "tracegen", "job": dict(f["job"], rec=True), "event": f["event"], "property": prop, "reason": f["why"]})
+    cov = bs["coverage"]
+    res.coverage["traces_validated_against_impl"] = res.coverage.get("traces_validated_against_impl", 0) + cov["runs"]
+    res.coverage["byte_level_validation"] = cov
+    res.coverage["trace_validation_tlc_states"] = res.coverage.get("trace_validation_tlc_states", 0) + cov["tlc_states"]
+
 def generic_tracegen_check(prop, mc_names, extra_notes=(), edges=False):
     def fn(tier_):
         res = Result(prop)
@@ -176,6 +193,8 @@ def generic_tracegen_check(prop, mc_names, extra_notes=(), edges=False):
         add_tracegen(res, tg, prop)
         if edges:
             add_edges(res, stages.edges_stage(tier_, tree_key()), prop)
+        if prop in BYTES_PROPS:
+            add_bytes(res, stages.bytes_stage(tier_, tree_key()), prop)
         if mc_names:
             add_mc(res, tier_, mc_names)
         res.assumptions = ASSUME_TRACE + (ASSUME_MC if mc_names else [])
@@ -190,11 +209,11 @@ CHECKS = {
     "C01": generic_tracegen_check("C01", MC_SAFETY, edges=True),
     "C02": generic_tracegen_check("C02", MC_SAFETY, edges=True),
     "C03": generic_tracegen_check("C03", MC_SAFETY, edges=True),
-    "C04": generic_tracegen_check("C04", []),
-    "C05": generic_tracegen_check("C05", MC_SAFETY),
+    "C04": generic_tracegen_check("C04", [], edges=True),
+    "C05": generic_tracegen_check("C05", MC_SAFETY, edges=True),
     "C06": generic_tracegen_check("C06", MC_RUNS_ONLY),
-    "C10": generic_tracegen_check("C10", MC_RUNS_ONLY),
-    "C11": generic_tracegen_check("C11", MC_RUNS_ONLY + ["MC_Live"]),
+    "C10": generic_tracegen_check("C10", MC_RUNS_ONLY, edges=True),
+    "C11": generic_tracegen_check("C11", MC_RUNS_ONLY + ["MC_Live"], edges=True),
     "C17": generic_tracegen_check("C17", MC_SAFETY, edges=True),
 }
 
